@@ -20,12 +20,13 @@ from ..shims import to_dense
 from . import c01, c04
 
 PROP = 'C07'
-QUICK = c04.QUICK[:11] + [
+QUICK = [c for c in c04.QUICK if c[2] is None] + [
     ('names_collide', dict(T=3, names=('1x', 'x')), None, 'B'),
     ('plant_win_empty', dict(T=3, fuel=True, win=(5, 7)), None, 'B'),
+    ('windows_gap', dict(T=4), None, 'B'),
     ('orderbook_all_outside', dict(T=3, orders=((-3, -1, 1.0), (5, 7, 1.0))), None, 'B'),
 ]
-THOROUGH = QUICK + c04.THOROUGH[13:-3] + [
+THOROUGH = QUICK + [c for c in c04.THOROUGH if c[2] is None and c not in c04.QUICK] + [
     ('names_collide_T12', dict(T=12, names=('1x', 'x')), None, 'A'),
     ('contract_storage_mip', dict(T=3, storage_kw=dict(no_simult_in_out=True)), None, 'B'),
     ('contract_storage_msd', dict(T=4, storage_kw=dict(max_store_duration=2)), None, 'B'),
